@@ -74,7 +74,7 @@ fn fmt_data(d: &Data) -> String {
     }
 }
 
-const LIMIT: usize = 2_000_000;
+const LIMIT: usize = 50_000;
 
 fn drain<I: Iterator<Item = String>>(it: &mut I, extra: usize) -> String {
     let mut out = String::new();
